@@ -928,7 +928,7 @@ func (e *Exec) selectStmt(fr *frame, in *ssa.Select) Value {
 		if !in.Blocking {
 			return mk(-1, false, -1, nil)
 		}
-		panic(&goPanic{kind: "blocked", site: e.site(fr, in), msg: "select blocks: no case ready (no other goroutine is modelled)"})
+		panic(blocked{site: e.site(fr, in), msg: "select blocks: no case ready (no other goroutine is modelled)"})
 	}
 	// nondeterministic choice among ready cases
 	pick := 0
